@@ -420,7 +420,12 @@ func (x *Exec) box(st *State, t types.Type, v Value) *IfaceV {
 	if _, ok := t.Underlying().(*types.Pointer); ok {
 		p := v.(*PtrV)
 		if p.Fld != nil || p.SlEl || p.Inner != nil {
-			unsupported("boxing an interior pointer")
+			// a pointer to a field or element: boxed as an opaque reference. It can be handed to a
+			// callee (which is then treated as writing the whole heap unless it is pure) but not
+			// unboxed by the code under verification.
+			r := x.freshSym("boxint", SInt)
+			st.ghost["$opaquebox:"+r.S] = TTrue
+			return &IfaceV{tag, r}
 		}
 		return &IfaceV{tag, p.Ref}
 	}
@@ -434,6 +439,9 @@ func (x *Exec) box(st *State, t types.Type, v Value) *IfaceV {
 }
 
 func (x *Exec) unbox(st *State, t types.Type, i *IfaceV) Value {
+	if _, opaque := st.ghost["$opaquebox:"+i.Ref.S]; opaque {
+		unsupported("unboxing a boxed interior pointer")
+	}
 	if pt, ok := t.Underlying().(*types.Pointer); ok {
 		return &PtrV{Ref: i.Ref, Elem: pt.Elem()}
 	}
